@@ -24,6 +24,7 @@ def getCxs? (j : Json) : Option (Array C) := do
   some xs.toArray
 
 def vecOf (a : Array C) : V C := fun i => a.getD i 0
+def vcOf (a : Array C) : Vc C := ⟨a.size, vecOf a⟩
 
 def matOf (n : Nat) (a : Array C) : Mx C := fun i j => if j < n then a.getD (i * n + j) 0 else 0
 
@@ -143,8 +144,8 @@ def handler : Handler := fun op j =>
       let md := o.md
       let n := md.inShape.size
       let m := md.outShape.size
-      let evs := (xs.getD []).map (fun x => vecOut m (o.eval (vecOf x)))
-      let ads := (ys.getD []).map (fun y => vecOut n (o.adj (vecOf y)))
+      let evs := (xs.getD []).map (fun x => vecOut m (o.eval (vcOf x)).get)
+      let ads := (ys.getD []).map (fun y => vecOut n (o.adj (vcOf y)).get)
       let d := den e
       let denJ := if wantDen then
           jArr ((List.range m).map (fun i => jArr ((List.range n).map (fun k => jCx (d i k)))))
